@@ -175,11 +175,14 @@ func TestC19(t *testing.T) {
 		for i := 0; i < c.n; i++ {
 			ne := c.g.Int(0, 2)
 			for k := 0; k < ne; k++ {
-				j := c.g.N(c.n)
+				// mostly forward edges (chains, diamonds); back and self edges (cycles) in about a fifth of the draws
+				var j int
+				if i < c.n-1 && !c.g.Chance(1, 5) {
+					j = i + 1 + c.g.N(c.n-i-1)
+				} else {
+					j = c.g.N(c.n)
+				}
 				if j <= i {
-					if !r.On("c19.cycle") && j <= i {
-						continue
-					}
 					c.cycle = true
 				}
 				edges[i] = append(edges[i], j)
